@@ -18,6 +18,8 @@ def quantile(ref, u):
         while ref.cdf(k) < u:
             k += step
             step = min(step * 2, 4096)
+            if k > 5e7:
+                raise RuntimeError(f"reference law of {type(ref).__name__} does not reach the {u}-quantile (checker)")
         # back off to the smallest k with cdf(k) >= u
         lo2 = max(lo, k - 2 * step)
         while lo2 < k:
@@ -84,6 +86,7 @@ def work(task):
                 if harness.raised_in_checker(err):
                     raise err
                 tag = "[scipy-inverse-search]" if "updating stopped" in str(err) else ""
+                tag += "".join("[Mw>=2Mn]" for n, p in specs if n == "schulz_zimm" and p[0] >= 2 * p[1])[:9]
                 viol.append({"key": f"C09/Molecule.generate/safe[{type(err).__name__}]{tag}", "clause": "a block of the declared size is generated",
                              "detail": {"quantile": u, "error": str(err)[:100]}, "input": inp})
                 continue
@@ -103,7 +106,8 @@ def work(task):
                     continue
                 ok = (want == b["n"]) if want is not None else False
                 if not ok:
-                    viol.append({"key": f"C09/Stochastic.generate/post[block-size-law][{specs[k][0]}]",
+                    z1 = "[Mw>=2Mn]" if specs[k][0] == "schulz_zimm" and specs[k][1][0] >= 2 * specs[k][1][1] else ""      # known finding (DESIGN 6): mass on M = 0
+                    viol.append({"key": f"C09/Stochastic.generate/post[block-size-law][{specs[k][0]}]{z1}",
                                  "clause": "the block stops after n units exactly for the quantiles between F(m_(n-1)) and F(m_n) of the declared distribution",
                                  "detail": {"block": k, "distribution": distlaw.text_of(*specs[k]), "quantile": u, "documented_quantile_mass": T,
                                             "drawn": draws[k]["value"], "units": b["n"], "cumulative_masses": ms[-3:], "expected_units": want},
@@ -119,7 +123,7 @@ def work(task):
 
 
 SMALL = {"gauss": [(100.0, 20.0), (60.0, 45.0)], "uniform": [(12, 72), (96, 97)], "poisson": [(65.0,)], "flory_schulz": [(0.1,)],
-         "schulz_zimm": [(120.0, 100.0)], "log_normal": [(80.0, 1.3)]}
+         "schulz_zimm": [(120.0, 100.0), (200.0, 100.0), (300.0, 100.0)], "log_normal": [(80.0, 1.3)]}
 
 
 def run(tier="quick", seed=0):
@@ -134,8 +138,10 @@ def run(tier="quick", seed=0):
     for a, b in pairs:
         tasks.append({"specs": [(a, SMALL[a][0]), (b, SMALL[b][0])], "quantiles": qs})
     res = harness.run_tasks("monitor.drive_C09", "work", tasks, timeout=600 if tier == "quick" else 2400)
+    from . import purecheck
+    res += harness.run_tasks("monitor.purecheck", "work", purecheck.law_tasks("C09", tier), timeout=600)
     out = harness.merge(res, rule="homopolymer blocks of every family x parameter set, one and two blocks per molecule, one parsed object generated at every "
-                        "quantile of a scripted grid; documented law as oracle. distinct = (molecule, block, number of units) outcomes")
+                        "quantile of a scripted grid; documented law as oracle; the three custom mass / density functions (_pmf / _pdf) against the ensures clause of their contract on an argument grid with the boundary cases mass 0, z == 1, z < 1. distinct = (molecule, block, number of units) outcomes")
     out["assumptions"] = ["bounded layer: only the parameter / quantile grid; the statistical statement itself (frequencies over random streams) is not decided: "
                           "it follows from the quantile law on paper, given that scipy's samplers apply the inverse cdf to a uniform variate (trusted)",
                           "poisson draws are not scriptable by quantile (numpy's own sampler): for poisson the block size is checked against the value actually drawn"]
